@@ -57,8 +57,72 @@ def plan(tier, seed):
     step = max(2, len(cells) // 256)
     for ci in range(0, len(cells), step):
         shards.append(("cells", tier, ci, min(len(cells), ci + step)))
+    for li in range(len(HIST_LATTICES)):
+        shards.append(("hist", li, 3 if tier == "quick" else 4))
     k = seed % len(shards)
     return shards[k:] + shards[:k]
+
+
+HIST_LATTICES = [([4.04, 4.04, 4.04, 90, 90, 90], "F"), ([2.87, 2.87, 2.87, 90, 90, 90], "I"), ([3.0, 3.0, 5.0, 90, 90, 120], "P"),
+                 ([3.0, 4.0, 5.0, 70, 80, 110], "P"), ([5.0, 5.0, 5.0, 60, 60, 60], "P"), ([3.0, 4.0, 5.0, 90, 100, 90], "C"),
+                 ([5.0, 5.0, 13.0, 90, 90, 120], "R"), ([4.0, 4.0, 5.5, 90, 90, 90], "A")]
+HIST_LIMITS = (0.41, 0.63, 0.97)
+
+
+def _run_hist(desc):
+    """histories on ONE unitcell object: every sequence of gethkls(l) / makerings(l, tol) calls up to the given depth; after
+    each call the returned / stored list must be the complete, sound list for the limit of that call (cached state from
+    earlier calls must not leak)."""
+    _, li, depth = desc
+    from ImageD11 import unitcell as uc_mod
+    sh = Shard()
+    cell, sym = HIST_LATTICES[li]
+    # limits relative to the first reflection so that no list is empty (makerings on an empty list is outside the alphabet)
+    dmin = min(O.brute_hkls(cell, sym, 1.0)[0].values())
+    limits = tuple(round(dmin * f, 4) for f in (1.23, 1.71, 2.37))
+    ops = [("gethkls", l) for l in limits] + [("makerings", l) for l in limits]
+    tol = 1e-3
+    oracle = {}
+    for l in limits:
+        for lim in (l, l + tol):
+            w, B = O.brute_hkls(cell, sym, lim)
+            oracle[lim] = w
+    for d in range(1, depth + 1):
+        for seq in itertools.product(range(len(ops)), repeat=d):
+            uc = uc_mod.unitcell(cell, sym)
+            names = []
+            bad = False
+            for oi in seq:
+                name, l = ops[oi]
+                names.append("%s(%g)" % (name, l))
+                if name == "gethkls":
+                    peaks = uc.gethkls(l)
+                    lim = l
+                else:
+                    uc.makerings(l, tol)
+                    peaks = uc.peaks
+                    lim = l + tol
+                got = {tuple(int(x) for x in p[1]): p[0] for p in peaks}
+                want = oracle[lim]
+                if len(got) != len(peaks) or set(got) != set(want):
+                    sh.violation("history:list-wrong-after-sequence", {"kind": "hist", "cell": cell, "sym": sym, "history": list(names)},
+                                 {"n_got": len(peaks), "n_expected": len(want), "missing": sorted(set(want) - set(got))[:5],
+                                  "extra": sorted(set(got) - set(want))[:5]})
+                    bad = True
+                    break
+                if name == "makerings":
+                    inr = sorted(h for d_ in uc.ringds for h in [tuple(int(x) for x in hh) for hh in uc.ringhkls[d_]])
+                    if inr != sorted(got):
+                        sh.violation("history:rings-not-a-partition-after-sequence", {"kind": "hist", "cell": cell, "sym": sym, "history": list(names)}, {})
+                        bad = True
+                        break
+            sh.evaluations += 1
+            sh.states += 1
+            if d >= 2:
+                sh.nontrivial += 1
+    sh.sample({"kind": "hist", "cell": cell, "sym": sym, "history": names}, limit=1)
+    sh.outcomes.add(("hist", li))
+    return sh
 
 
 def limits_for(cell, tier):
@@ -147,6 +211,8 @@ def check_rings(sh, uc_mod, cell, sym, limit, tol, case):
 
 
 def run_shard(desc):
+    if desc[0] == "hist":
+        return _run_hist(desc)
     _, tier, c0, c1 = desc
     from ImageD11 import unitcell as uc_mod
     sh = Shard()
@@ -176,6 +242,11 @@ def run_shard(desc):
 def replay(case):
     from ImageD11 import unitcell as uc_mod
     sh = Shard()
+    if case.get("kind") == "hist":
+        li = [i for i, (c, s_) in enumerate(HIST_LATTICES) if c == case["cell"] and s_ == case["sym"]][0]
+        r = _run_hist(("hist", li, len(case["history"])))
+        v = [x for x in r.violations if x["case"]["history"] == case["history"]]
+        return (not v), {"violations": v}
     r = check_list(sh, uc_mod, case["cell"], case["sym"], case["dsmax"], case)
     if r is not None and "ringtol" in case:
         check_rings(sh, uc_mod, case["cell"], case["sym"], case["dsmax"], case["ringtol"], case)
